@@ -1,26 +1,21 @@
-"""Registry of the properties that have a check.  One entry per property:
+"""Registry of the properties that have a check: one JSON file per property in tools/props.d/.
    gen_modules    coq/Gen modules regenerated from /repo by tools/rs2v.py
    model_targets  .vo files that only contain definitions (must build even when a proof breaks)
    proof_targets  .vo files holding the lemmas (Props/<id>.vo is always rebuilt on top)
    rule           how cases are generated and what makes one non-trivial (goes into the evidence)
+   trusted_base / assumptions   copied into the evidence
+   claim          {category, text, design_ref, level_note, technique} -> MANIFEST.json
+   optional: coq_timeout, harness_timeout, search_timeout, search_budget, axiom_allow, level
 """
+import glob
+import json
+import os
 
 KERNEL = 'Coq 8.16.1 kernel (coqc, full .vo build, vm_compute used for evaluating the model on cases; no native_compute)'
 RS2V = 'tools/rs2v.py translator (Rust integer subset -> Gallina), trusted to preserve meaning; cross-checked by the correspondence run'
 HARNESS = 'harness/ (Rust, links /repo built with --cfg kahflane_turdb_verif) prints the implementation behaviour as Coq terms; trusted to report it faithfully'
 
-PROPS = {
-    'C27': {
-        'gen_modules': ['Varint'],
-        'model_targets': ['Gen/Varint.vo', 'Model/Varint.vo', 'Corr/C27.vo'],
-        'proof_targets': ['Proof/Varint.vo'],
-        'rule': 'values: +-3 around every length threshold, 2^k-1/2^k/2^k+1, random u64 of uniformly random bit length, dense low '
-                'range; byte strings: all of length <=1 (quick) / <=2 (thorough), marker-led strings of length 1..10, truncated / '
-                'extended / bit-flipped valid encodings. Non-trivial = value above 240 (multi-byte encoding) or string of >= 2 bytes; '
-                'distinct by case text.',
-        'trusted_base': [KERNEL, RS2V, HARNESS,
-                         'Lib/MachInt.v: meaning given to Rust u64/usize arithmetic, `as u8`, slices (bidx/bupd/bslice, be_bytes/from_be)'],
-        'assumptions': ['dev-profile semantics (overflow checks on) is what *_safe models; release wrapping is not claimed',
-                        'eyre error values are compared only as Err'],
-    },
-}
+PROPS = {}
+for _p in sorted(glob.glob(os.path.join(os.path.dirname(os.path.abspath(__file__)), 'props.d', 'C*.json'))):
+    _pid = os.path.basename(_p)[:-5]
+    PROPS[_pid] = json.load(open(_p))
